@@ -155,6 +155,9 @@ def gen_ids(thorough: bool) -> list[Id]:
         ids.append(Id(t, "digit"))
     for t in ["äpp", "ÄPP", "アプリ"]:
         ids.append(Id(t, "unicode"))
+    # distinct strings that Unicode normalisation (NFC / NFD / NFKC) or case folding would identify
+    for t in ["caf\u00e9", "cafe\u0301", "\ufb01n", "fin", "x\u00b2", "x2"]:
+        ids.append(Id(t, "normalisation"))
     ids.append(Id("a" * 200, "long"))
     ids.append(Id("a" * 199 + "-", "long"))
     for t in ["", " ", "_", "%"]:
@@ -172,6 +175,8 @@ def gen_ids(thorough: bool) -> list[Id]:
             ids.append(Id(t, "punct"))
         for t in ["٣app", "0", "00"]:
             ids.append(Id(t, "digit"))
+        for t in ["\u212a", "K", "\uff11app", "stra\u00dfe", "strasse", "STRASSE"]:
+            ids.append(Id(t, "normalisation"))
         ids.extend(constructed("app-x"))
         ids.extend(constructed(""))
         ids.extend(constructed("1app", COMPONENTS[:2]))
@@ -819,7 +824,7 @@ def run(ctx: Ctx) -> None:
     ctx.extra["id_kinds"] = sorted({i.kind for i in ids})
     ctx.extra["hash32_collision_pair"] = list(collision_pair())
     ctx.rule = (
-        f"{len(ids)} explicit ids (punctuation/case/digit/unicode/long/empty-like/SQL/LIKE variants of a word; ids "
+        f"{len(ids)} explicit ids (punctuation/case/digit/unicode/normalisation-equivalent/long/empty-like/SQL/LIKE variants of a word; ids "
         "built from another id's sanitised storage prefix: bare, + '__<component>' for each of the 5 components, "
         "swapped case, '_'->'Z', not at the start, chained twice; one sha256[:8]-colliding pair of punctuation "
         f"variants): all {2 * n_pairs} ordered pairs"
